@@ -198,7 +198,7 @@ def run_pipeline(tables, cfg, workdir, name, fmt="pin", row_group=None, sched_de
                 rng=cfg["seed"],
             )
             res.stage = "done"
-        except Exception as exc:  # noqa: BLE001
+        except (Exception, SystemExit) as exc:  # noqa: BLE001  (triqler calls sys.exit on degenerate input)
             res.exc = exc
             res.error = f"{short_msg(exc)} at {exc_site(exc)} (stage {res.stage})"
         finally:
